@@ -676,4 +676,11 @@ def r8(ctx):
     relabel(ctx, "C11.R8", c03.r6, c06.r3)
 
 
-RULES = [("C11.R1", r1), ("C11.R2", r2), ("C11.R3", r3), ("C11.R4", r4), ("C11.R5", r5), ("C11.R6", r6), ("C11.R7", r7), ("C11.R8", r8)]
+
+def f1(ctx):
+    """generic same-name parameter forwarding over this property's modules (see shared.generic_forwarding)."""
+    from . import shared as _sh
+    _sh.generic_forwarding(ctx, "C11.F1", _sh.PROPERTY_MODULES["C11"])
+
+
+RULES = [("C11.R1", r1), ("C11.R2", r2), ("C11.R3", r3), ("C11.R4", r4), ("C11.R5", r5), ("C11.R6", r6), ("C11.R7", r7), ("C11.R8", r8), ("C11.F1", f1)]
